@@ -103,7 +103,8 @@ def run(chk: Check, repo: Repo) -> None:
     chk.unit(run_)
     cfg_r = CFG(run_.node)
     n = 0
-    for w1, w2, r1, r2 in product((False, True), (False, True), (False, True), (False, True)):
+    kinds = (None, "ValueError", "CouldNotParseTelegram", "CommunicationError", "XKNXException")
+    for w1, w2, r1, r2 in product((False, True), (False, True), kinds, kinds):
         cb = (Obj("Callback", "cb1", (("within", w1), ("raises", r1))), Obj("Callback", "cb2", (("within", w2), ("raises", r2))))
 
         def cm(c: ast.Call, env):
@@ -113,7 +114,7 @@ def run(chk: Check, repo: Repo) -> None:
                     if c.func.attr == "is_within_filter":
                         return [Outcome(None, recv.get("within"))]
                     if c.func.attr == "callback":
-                        return [Outcome(f"CALL:{recv.tag}", Raise("ValueError") if recv.get("raises") else None)]
+                        return [Outcome(f"CALL:{recv.tag}", Raise(recv.get("raises")) if recv.get("raises") else None)]
             if call_name(c).startswith("logger."):
                 return [Outcome(None, None)]
             return None
@@ -125,5 +126,10 @@ def run(chk: Check, repo: Repo) -> None:
         n += 1
         chk.ob("callback-dispatch", run_.site(), got == want, f"cb1(within={w1}, raises={r1}) cb2(within={w2}, raises={r2}): code {sorted(got)}; reference {sorted(want)}", key=f"dispatch|{w1}|{w2}|{r1}|{r2}" + ("" if got == want else f"|{sorted(got)}"))
     chk.count("dispatch_cells", n)
+    from ..astx import attr_writes
+    ws = [w for w in attr_writes(repo, "telegram_received_cbs") if w.func.module.name == TQ]
+    init_ok = any(w.kind == "assign" and isinstance(getattr(w.stmt, "value", None), ast.List) and not w.stmt.value.elts for w in ws)
+    muts = sorted({w.kind for w in ws if w.kind.startswith("mutcall:")})
+    chk.ob("callback-registry-is-list", run_.site(), init_ok and set(muts) <= {"mutcall:append", "mutcall:remove"}, f"telegram_received_cbs is a list literal ({init_ok}) mutated only by {muts}: registration order is kept and (un)registering from inside a callback does not raise during dispatch", key="callback-registry-is-list")
     chk.rule("E7 truth table of Callback.is_within_filter vs the oracle formula; abstract path enumeration of the dispatch loop over two callbacks x {within filter} x {raises}")
     chk.assume("AddressFilter.match is decided by C02; callbacks raise Exception subclasses (BaseException such as CancelledError propagates by design)")
